@@ -137,7 +137,8 @@ def check(ctx):
                    f'cell length of axis {k}' if ax_ok else f'grid size of axis {k} is computed from the cell length of axis {lv.axis if lv is not None else "?"}')
             ctx.ob('R2', fi, expr, True if res_ok else None, f'n = 1 + L // resolution along axis {k}: voxel edge L / (L // resolution) lies in [resolution, 2 resolution)')
         else:
-            ctx.ob('R2', fi, expr, False if lin is not None else None,
+            arithmetic = isinstance(expr, (ast.BinOp, ast.Constant)) or (isinstance(expr, ast.Call) and norm_text(expr.func) in ('int', 'round', 'math.ceil', 'math.floor'))
+            ctx.ob('R2', fi, expr, False if (lin is not None and arithmetic) else None,
                    f'number of edges along axis {k} is `{norm_text(expr)}`, not 1 + L // resolution: the grid size differs from '
                    f'L // resolution (voxel smaller than the requested resolution or one voxel lost)')
     # array extent per axis
